@@ -23,7 +23,7 @@ warnings.simplefilter("ignore")
 ACT = {"nop": 0, "alarm": 1, "rm_alarm": 2, "watch": 3, "rm_watch": 4, "idle": 5, "rm_idle": 6, "sleep": 7,
        "exit": 8, "boom": 9}
 OUTCOMES = ["returned", "raised", "env_end", "blocked", "spin", "key_error"]
-FLAVOUR = {"select": 0, "zmq": 1, "asyncio": 2}
+FLAVOUR = {"select": 0, "zmq": 1, "asyncio": 2, "tornado": 3}
 
 
 class EnvEnd(BaseException):
@@ -141,7 +141,10 @@ class CB:
 class Runner:
     """drives one loop object through a case (setup actions, run()) inside the virtual environment"""
 
-    def __init__(self, case, env, loop, tie_base=0, file_handles=False, timer_handles=False, fd_offset=0):
+    def __init__(self, case, env, loop, tie_base=0, file_handles=False, timer_handles=False, fd_offset=0,
+                 watch_handles=False):
+        self.watch_handles = watch_handles    # tornado: watch_file returns a handle; one live handle per descriptor
+        self.live = {}
         self.case, self.env, self.loop = case, env, loop
         self.timer_handles = timer_handles    # adapters: alarm handles are host timer objects
         self.fd_offset = fd_offset            # adapters: virtual descriptor numbers are shifted away from real ones
@@ -173,7 +176,11 @@ class Runner:
                 tr.append(["rm_alarm", a[1], bool(loop.remove_alarm(h))])
             elif k == "watch":
                 cb = CB(self, "watch", a[1], a[2])
-                if self.file_handles:
+                if self.watch_handles:
+                    if a[1] in self.live:
+                        continue          # tornado raises ValueError for a second handler on one descriptor: not issued
+                    self.live[a[1]] = loop.watch_file(a[1] + self.fd_offset, cb)
+                elif self.file_handles:
                     f = FakeFile(a[1])
                     self.files.setdefault(a[1], []).append(loop.watch_file(f, cb))
                 else:
@@ -182,7 +189,10 @@ class Runner:
                         tr.append(["watch_handle_differs", repr(r)])
                 tr.append(["watch_set", a[1], a[2]])
             elif k == "rm_watch":
-                if self.file_handles:
+                if self.watch_handles:
+                    h = self.live.pop(a[1], None)
+                    tr.append(["rm_watch", a[1], bool(loop.remove_watch_file(-1 if h is None else h))])
+                elif self.file_handles:
                     fs = self.files.get(a[1])
                     f = fs[-1] if fs else FakeFile(a[1])
                     tr.append(["rm_watch", a[1], bool(loop.remove_watch_file(f))])
@@ -358,9 +368,98 @@ def run_zmq_virtual(case):
 def run_asyncio_virtual(case):
     """AsyncioEventLoop on a real asyncio.SelectorEventLoop whose clock and selector are the virtual
     environment: every _run_once iteration polls the scripted selector; nothing blocks"""
-    import asyncio
     import urwid
     env = VEnv(case["env"])
+    aloop, sel, OFF = make_virtual_asyncio(env)
+    try:
+        loop = urwid.AsyncioEventLoop(loop=aloop)
+        loop.logger.disabled = True
+        r = Runner(case, env, loop, timer_handles=True, fd_offset=OFF)
+        try:
+            r.do_actions(case["setup"])
+        except Exception as e:
+            raise core.MachineryError("setup raised %r" % (e,))
+        outcome = r.run(guard=False)
+        watch = []
+        for fd, key in sel.get_map().items():
+            if fd >= OFF and key.data[0] is not None:
+                cb = key.data[0]._callback
+                watch.append([fd - OFF, getattr(cb, "__wrapped__", cb).id])
+        return {
+            "outcome": outcome,
+            "did": loop._exc is not None,
+            "now": tick(env.now),
+            "alarms": [],
+            "watch": watch,
+            "idles": [[h, cb.id] for h, cb in loop._idle_callbacks.items()],
+            "trace": env.trace,
+            # expected verdict of the model's host-specification checker (the model reports what it found)
+            "host_ok": True,
+        }
+    finally:
+        aloop.close()
+
+
+def find_cb(obj, depth=0):
+    """the CB object buried in the wrappers urwid puts around a callback (functools.wraps / closures)"""
+    if isinstance(obj, CB):
+        return obj
+    if depth > 6:
+        return None
+    for nxt in [getattr(obj, "__wrapped__", None)] + [c.cell_contents for c in (getattr(obj, "__closure__", None) or ())]:
+        if nxt is not None and (callable(nxt) or isinstance(nxt, CB)):
+            r = find_cb(nxt, depth + 1)
+            if r is not None:
+                return r
+    return None
+
+
+def run_tornado_virtual(case):
+    """TornadoEventLoop on a real tornado AsyncIOLoop over the virtual asyncio loop (virtual clock for both)"""
+    import urwid
+    from tornado.platform.asyncio import AsyncIOLoop
+    env = VEnv(case["env"])
+    aloop, sel, OFF = make_virtual_asyncio(env)
+
+    class VIOLoop(AsyncIOLoop):
+        def time(self):
+            return env.now
+    io = VIOLoop(asyncio_loop=aloop, make_current=False)
+    try:
+        loop = urwid.TornadoEventLoop(loop=io)
+        loop.logger.disabled = True
+        r = Runner(case, env, loop, timer_handles=True, fd_offset=OFF, watch_handles=True)
+        try:
+            r.do_actions(case["setup"])
+        except Exception as e:
+            raise core.MachineryError("setup raised %r" % (e,))
+        outcome = r.run(guard=False)
+        watch = []
+        for fd in sel.get_map():
+            if fd >= OFF and fd in io.handlers:
+                cb = find_cb(io.handlers[fd][1])
+                watch.append([fd - OFF, cb.id if cb is not None else -1])
+        pend = sorted(i for i, h in enumerate(r.handles) if h in loop._pending_alarms)
+        return {
+            "outcome": outcome,
+            "did": loop._exc is not None,
+            "now": tick(env.now),
+            "alarms": [[k, 0, 0] for k in pend],
+            "watch": watch,
+            "idles": [[h, cb.id] for h, cb in loop._idle_callbacks.items()],
+            "trace": env.trace,
+            "host_ok": True,
+        }
+    finally:
+        try:
+            io.close()
+        except Exception:
+            aloop.close()
+
+
+def make_virtual_asyncio(env):
+    """a real asyncio.SelectorEventLoop whose clock and selector are the virtual environment"""
+    import asyncio
     OFF = 1000           # virtual descriptors live at 1000+fd: the loop's self-pipe uses real small numbers
 
     class FakeSelector(real_selectors.BaseSelector):
@@ -407,34 +506,7 @@ def run_asyncio_virtual(case):
             return env.now
 
     sel = FakeSelector()
-    aloop = VLoop(sel)
-    try:
-        loop = urwid.AsyncioEventLoop(loop=aloop)
-        loop.logger.disabled = True
-        r = Runner(case, env, loop, timer_handles=True, fd_offset=OFF)
-        try:
-            r.do_actions(case["setup"])
-        except Exception as e:
-            raise core.MachineryError("setup raised %r" % (e,))
-        outcome = r.run(guard=False)
-        watch = []
-        for fd, key in sel.get_map().items():
-            if fd >= OFF and key.data[0] is not None:
-                cb = key.data[0]._callback
-                watch.append([fd - OFF, getattr(cb, "__wrapped__", cb).id])
-        return {
-            "outcome": outcome,
-            "did": loop._exc is not None,
-            "now": tick(env.now),
-            "alarms": [],
-            "watch": watch,
-            "idles": [[h, cb.id] for h, cb in loop._idle_callbacks.items()],
-            "trace": env.trace,
-            # expected verdict of the model's host-specification checker (the model reports what it found)
-            "host_ok": True,
-        }
-    finally:
-        aloop.close()
+    return VLoop(sel), sel, OFF
 
 
 # ---------------- wire format ----------------
@@ -511,7 +583,9 @@ def decode_result(ints, loop=None):
                 return {"malformed": ints[:20]}
         out["trace"] = tr
         rest = list(it)
-        if loop == "asyncio":
+        if loop == "tornado":
+            out["alarms"] = sorted(out["alarms"])
+        if loop in ("asyncio", "tornado"):
             # verdict of the (proved sound) checker of the host specification on the log of the host model
             out["host_ok"] = bool(rest[0]) if rest else "missing"
         elif rest:
@@ -648,7 +722,7 @@ SCENARIOS = ["alarms", "many_alarms", "overdue_order", "overdue_remove", "watch"
              "exit_alarm", "exit_watch", "exit_idle", "rerun_alarm", "rerun_watch", "rerun_idle", "overdue_many"]
 # overdue_many: delays (units of 10 ms) of alarms that are all overdue when a blocking callback returns
 OVERDUE_MANY = [5, 2, 8, 3, 7, 1, 6, 4]
-OVERDUE_ROUNDS = {"trio": 24, "select": 3, "zmq": 3, "asyncio": 3, "tornado": 1, "twisted": 1}
+OVERDUE_ROUNDS = {"trio": 8, "select": 3, "zmq": 3, "asyncio": 3, "tornado": 1, "twisted": 1}
 # delays (in units) of the many_alarms scenario, registration order; the handles at REMOVED positions are removed before run()
 MANY_DELAYS = [2, 8, 4, 12, 10, 14, 6, 16, 5, 9]
 MANY_REMOVED = [3, 1]
@@ -681,7 +755,19 @@ def adapter_worker(name, scen):
         # several rounds, a fresh loop each: a blocking callback makes 8 alarms (registered out of order) overdue at
         # the same time; they must still run in due order.  Runtimes that wake timers in random order need rounds.
         rounds = []
+        seeded = False
         for _rnd in range(OVERDUE_ROUNDS.get(name, 1)):
+            if name == "trio":
+                # make trio's scheduler deterministic (the knob its Hypothesis plugin uses): every batch of runnable
+                # tasks is sorted and then shuffled with the module RNG, which is seeded with the round number, so
+                # the rounds are fixed wake-up orders instead of random ones
+                try:
+                    import trio._core._run as _trio_run
+                    _trio_run._ALLOW_DETERMINISTIC_SCHEDULING = True
+                    _trio_run._r.seed(_rnd)
+                    seeded = True
+                except Exception:
+                    seeded = False
             lp = make_loop(name)
             order = []
 
@@ -696,8 +782,16 @@ def adapter_worker(name, scen):
             except BaseException as e:
                 order.append("raised:" + type(e).__name__)
             rounds.append(order)
-        print("C13RESULT " + json.dumps({"outcome": "returned", "log": [], "res": {"rounds": rounds}}), flush=True)
+        print("C13RESULT " + json.dumps({"outcome": "returned", "log": [], "res": {"rounds": rounds, "seeded": seeded}}), flush=True)
         os._exit(0)
+    if name == "trio":
+        # a fixed adversarial scheduling order instead of trio's random batch reversal (see overdue_many)
+        try:
+            import trio._core._run as _trio_run
+            _trio_run._ALLOW_DETERMINISTIC_SCHEDULING = True
+            _trio_run._r.seed(len(scen))
+        except Exception:
+            pass
     loop = make_loop(name)
     t0 = time.monotonic()
     log = []
@@ -1074,7 +1168,7 @@ def run_adapter_once(case, timeout=20):
 class C13(core.Check):
     pid = "C13"
     gen_modules = []
-    model_targets = ["theories/Model/SelectLoop.vo", "theories/Model/ZmqLoop.vo", "theories/Model/AdapterLoop.vo", "theories/Model/AdapterCheck.vo"]
+    model_targets = ["theories/Model/SelectLoop.vo", "theories/Model/ZmqLoop.vo", "theories/Model/AdapterLoop.vo", "theories/Model/TornadoLoop.vo", "theories/Model/AdapterCheck.vo"]
     prop_file = "theories/Properties/C13.v"
     extract_v = "Extract/C13X.v"
     allowed_axioms = set()
@@ -1122,8 +1216,12 @@ class C13(core.Check):
                   "checker (hostok_b, proved sound in Coq) evaluated by the extracted model on the log of its asyncio host: a failing "
                   "verdict shows up as a correspondence difference, so for every tested run the contract is proved for the model's "
                   "run (asyncio_checked_run_contract_partial).  NOT proved: that the asyncio host model satisfies host_ok on ALL "
-                  "runs (asyncio_host_meets_spec_full is stated only); alarm ORDER for adapters (host property; oracle only).  ORACLE "
-                  "ONLY (no theorem): tornado, twisted, trio adapters and asyncio/zmq/select on their real poller/selector are "
+                  "runs (asyncio_host_meets_spec_full is stated only); alarm ORDER for adapters (host property; oracle only).  The same "
+                  "is done for TornadoEventLoop (Model/TornadoLoop.v: _pending_alarms, watch-handle table, handle_exit catching "
+                  "BaseException, clean-up order), over the same host record, with its own contract (remove_alarm True iff the alarm "
+                  "is pending) proved for every host satisfying host_ok, tied by correspondence to tornado_loop.py on a real tornado "
+                  "AsyncIOLoop over the virtual asyncio loop, hypothesis checked run by run.  ORACLE "
+                  "ONLY (no theorem): twisted and trio adapters and all loops on their real poller/selector are "
                   "contract-tested on the real runtimes (22 scenarios each: order, once-ness, not-before-due, removal results, "
                   "same-batch sibling removal, overdue order, many out-of-order alarms with removals, descriptor 0, idle-after-callback, exception propagation also for BaseException-derived exceptions, 8 alarms overdue together in repeated rounds, run() called again after an exception); no known finding is left; glib is not installed "
                   "and not covered.")
@@ -1144,7 +1242,7 @@ class C13(core.Check):
     trusted_base = [
         "Coq 8.16.1 kernel (coqc; vm_compute only for closed examples and the refutation witness)",
         "extraction: ExtrOcamlBasic only; Z stays a Coq datatype; OCaml 4.13.1; tools/driver/driver.ml",
-        "hand-written models Model/SelectLoop.v, Model/ZmqLoop.v and Model/AdapterLoop.v (validated by this correspondence, not proved against Python)",
+        "hand-written models Model/SelectLoop.v, Model/ZmqLoop.v, Model/AdapterLoop.v and Model/TornadoLoop.v (validated by this correspondence, not proved against Python)",
         "adapter theorems: the host specification host_ok (Proofs/AdapterLoopSpec.v) is a HYPOTHESIS; the asyncio host model is tied to the real asyncio loop by correspondence only",
         "the virtual environment: VEnv / FakeSel / FakePoller in harness/props/c13.py and do_select / zdo_select in the models",
         "Python oracles in harness/props/c13.py (oracle_history, oracle_adapter)",
@@ -1156,7 +1254,8 @@ class C13(core.Check):
         "callbacks are deterministic functions of (their identity, how often they were called before)",
         "the models cover one run() per loop object (run() called again after an exception / ExitMainLoop is covered by the adapter scenarios rerun_* on the real runtimes only); signals / InterruptedError / run_in_executor / watch_queue are not modelled",
         "adapter theorems assume the host specification host_ok for the run at hand; fewer than 100 cancelled timers (asyncio rebuilds its heap beyond that); negative alarm delays are not judged for order on host runtimes",
-        "tornado, twisted, trio are covered by scenarios on the real runtimes only (no theorem); glib not covered",
+        "tornado virtual cases never register a second handler on a descriptor that still has one (tornado raises ValueError there); the tornado IOLoop layer over asyncio (call_at -> call_later(max(0, ..)), add_handler -> add_reader) is part of the implementation side of the correspondence",
+        "twisted, trio are covered by scenarios on the real runtimes only (no theorem; trio with its scheduler made deterministic through trio._core._run._ALLOW_DETERMINISTIC_SCHEDULING and a seeded RNG); glib not covered",
     ]
 
     # corpus: virtual cases go through the correspondence; adapter cases (regressions of repaired
@@ -1177,6 +1276,8 @@ class C13(core.Check):
             return run_zmq_virtual(case)
         if case["loop"] == "asyncio":
             return run_asyncio_virtual(case)
+        if case["loop"] == "tornado":
+            return run_tornado_virtual(case)
         raise core.MachineryError("unknown loop " + str(case.get("loop")))
 
     def encode(self, case):
@@ -1192,7 +1293,7 @@ class C13(core.Check):
         if "trace" not in res:
             return []
         return oracle_history(res["trace"], res["outcome"], getattr(self, "_dist", None),
-                              batch_stop=(case.get("loop") == "asyncio"))
+                              batch_stop=(case.get("loop") in ("asyncio", "tornado")))
 
     def nontrivial(self, case, res):
         return any(e[0].endswith("_call") for e in res.get("trace", []))
@@ -1354,7 +1455,7 @@ class C13(core.Check):
         return {"loop": loop, "setup": setup, "beh": beh, "env": [[late, []]] * (2 * n + 8)}
 
     def loops(self):
-        return ["select", "zmq", "asyncio"]
+        return ["select", "zmq", "asyncio", "tornado"]
 
     def cases(self, rng, tier):
         for loop in self.loops():
